@@ -53,7 +53,7 @@ def plan(tier):
                 "and jitter seeds. Non-trivial = at some checked point at least two jobs held resources or a request was "
                 "waiting; distinct = distinct (class, configuration, jobs, history, pace).",
         "exhaustive": True,
-        "assumptions": ["location names are unique across deployments", "a deployment's locations share one mount table",
+        "assumptions": ["repeated notifications are issued sequentially (any status, FIREABLE included) and concurrently (two in-flight COMPLETED/FAILED calls)", "location names are unique across deployments", "a deployment's locations share one mount table",
                         "out-of-lifecycle histories are recorded, not judged"],
     }
 
